@@ -112,6 +112,10 @@ void CONmtReset(CO_NMT *nmt, CO_NMT_RESET type)
             }
         }
 
+#if USE_CSDO
+        /* running SDO client transfers end with this reset */
+        COCSdoAbortAll(nmt->Node->CSdo);
+#endif
         /* stop all timers of the communication services */
         COTmrClear(&nmt->Node->Tmr);
 #if USE_LSS
